@@ -272,7 +272,7 @@ def c08(run):
          ("capset", ["set:k1:collide:20:500:set", "set:k3:fewpos:16:300:set", "set:k6:zero:12:300:set", "map:k3v4:collide:14:300:cap", "map:k5v4:onegroup:12:300:cap"])],
         [("cap2", ["map:kv24:onegroup:14:3000:cap", "map:kva64:fewpos:30:3000:cap", "map:k1v4:max:12:3000:cap"]),
          ("capg", ["map:kv16:collide:24:3000:cap", "set:k1:zero:14:2000:set"], G)],
-        "capacity()/len()/allocation_size() and allocator events recorded around every call and checked against the capacity contract on tombstoned states; for every table size (Apalache, HbCount): capacity() >= len() follows from the inductive bookkeeping invariant", corpus=True, goals=True, count=True)
+        "capacity()/len()/allocation_size() and allocator events recorded around every call and checked against the capacity contract on tombstoned states; for every table size (Apalache, HbCount): capacity() >= len() follows from the inductive bookkeeping invariant", corpus=True, goals=True, sgoals=True, tgoals=True, count=True)
 
 
 ITER_MODELS = [("MC_iter_w4.cfg", "MC_iter.tla", {"timeout": 300, "workers": 6}), ("MC_iter_w16s.cfg", "MC_iter.tla", {"timeout": 300, "workers": 6}),
